@@ -229,6 +229,12 @@ pub fn c10_script(r: &mut Rng, _index: u64, _tier: Tier) -> (CaseCfg, Vec<Step>)
     if let Some(o) = over {
         props.push(Prop::ServerKeepAlive(o));
     }
+    // one case in four: the broker limits the packet size, so some publishes are refused locally
+    // (a refused request is not a client packet and must not postpone the PINGREQ)
+    let small_mps = r.chance(1, 4);
+    if small_mps {
+        props.push(Prop::MaximumPacketSize(24));
+    }
     let mut s = vec![];
     // one case in four: an earlier connection whose CONNACK carried some other Server Keep Alive
     if r.chance(1, 4) {
@@ -270,9 +276,11 @@ pub fn c10_script(r: &mut Rng, _index: u64, _tier: Tier) -> (CaseCfg, Vec<Step>)
             _ => 1 + r.below(2 * base as usize + 10) as u64,
         };
         s.push(Step::Poll { max_wait: wait.max(1), cancel_at: None });
+        let len = if small_mps && r.chance(2, 3) { 40 } else { 2 };
         match r.below(6) {
-            0 => s.push(Step::Publish(PubSpec { topic: "k".into(), payload: PayloadSpec::Fill { len: 2, tag: i as u32, ascii: false }, qos: 0, retain: false, props: vec![], correlate: None, cancel_at: None })),
-            1 => s.push(Step::Publish(PubSpec { topic: "k".into(), payload: PayloadSpec::Fill { len: 2, tag: i as u32, ascii: false }, qos: 1, retain: false, props: vec![], correlate: None, cancel_at: None })),
+            0 => s.push(Step::Publish(PubSpec { topic: "k".into(), payload: PayloadSpec::Fill { len, tag: i as u32, ascii: false }, qos: 0, retain: false, props: vec![], correlate: None, cancel_at: None })),
+            1 => s.push(Step::Publish(PubSpec { topic: "k".into(), payload: PayloadSpec::Fill { len, tag: i as u32, ascii: false }, qos: 1, retain: false, props: vec![], correlate: None, cancel_at: None })),
+            4 if small_mps => s.push(Step::Publish(PubSpec { topic: "k".into(), payload: PayloadSpec::Fill { len: 40, tag: i as u32, ascii: false }, qos: 0, retain: false, props: vec![], correlate: None, cancel_at: None })),
             2 => s.push(Step::Broker(BrokerAct::Send(SPacket::Publish { dup: false, qos: 0, retain: false, topic: "in".into(), pid: None, props: vec![], payload: vec![1] }))),
             3 => s.push(Step::Broker(BrokerAct::Send(SPacket::Publish { dup: false, qos: 1, retain: false, topic: "in".into(), pid: Some(1 + i as u16), props: vec![], payload: vec![1] }))),
             _ => {}
